@@ -47,7 +47,7 @@ TEXT = {
   "technique": "Coq proof (case analysis of the cascade) + differential correspondence with the real controllers against a live and a fault-injecting validator",
  },
  "C01": {
-  "level": "Theorems in exact (non-wrapping) N arithmetic at the three places a transaction is judged: a block accepted by verify_block, every new block of a candidate accepted by verify, a transaction accepted by the pool (valued at the next block time), and every transaction kept by production pay out at most the value of the outputs they consume minus the minimal fee, and the block's single reward is at most the sum of what its transactions leave over (plus the genesis amount in a first block). The pinned tree's wrapping sum is refuted by a concrete witness (fixed in /repo). Tied to the code by histories on the real node with a big-integer monitor on every served chain.",
+  "level": "Theorems in exact (non-wrapping) N arithmetic at the three places a transaction is judged: a block accepted by verify_block, every new block of a candidate accepted by verify, a transaction accepted by the pool (valued at the next block time), and every transaction kept by production pay out at most the value of the outputs they consume minus the minimal fee, and the block's single reward is at most the sum of what its transactions leave over (plus the genesis amount in a first block). Block-level conservation follows (C01_supply): a verified or produced block creates, reward included, no more value than its ordinary transactions consume at its timestamp (plus the genesis amount in a first block), given the one-output reward shape that every decoded block has. The pinned tree's wrapping sum is refuted by a concrete witness (fixed in /repo). Tied to the code by histories on the real node with a big-integer monitor on every served chain.",
   "ref": "DESIGN.md section 4, C01",
   "note": "trusted: Coq kernel, extraction, harness; Utxo.Value, ECDSA, address derivation are oracles; the bound is stated against the registry state the code consults at each of the three places (C07 identifies that state with the replay of the chain); the global 'supply' corollary is not proved",
   "technique": "Coq proof (exact-arithmetic lemmas about CalculateFee, inversion of verifyBlock / admission / production loop) + differential correspondence and big-integer monitor on operation histories",
